@@ -1,5 +1,6 @@
 """C19 — robotics expressions evaluate totally; plain numbers are unchanged (DESIGN §4 C19).
 Configurations with the `robotics` feature only."""
+import re
 from ..mir import MissingAnchor, sym_contains
 from ..rules import render, aggregates, last_seg, bool_switches, must_pass, switch_edges, compares, int_consts
 
@@ -205,6 +206,30 @@ def run(ctx):
                     okid = okid or direct
             ctx.check(bool(vlocals) and okid, "IDENTITY", "C19:IDENTITY:%s" % outer, "%s initialises its result from %s()'s value without arithmetic" % (outer, inner),
                       "%s no longer passes a lone operand through unchanged (definitions of the result: %s): `-0.0` evaluates to `+0.0` with the option on, and 1/(-0.0) to +inf" % (outer, defs), config, ctx.where(g))
+        # ---- FLAGS: the unit bookkeeping of a sub-expression (used-a-unit, saw-a-bare-term) travels unchanged through the
+        # wrappers that add no unit of their own — a parenthesised group and a sign: the mixed-unit check at the top sees
+        # every bare term wherever it is written.  (Unit calls deg(..) / rad(..) set both flags themselves.)
+        nfl = 0
+        for wname in ("primary", "unary"):
+            g = fx.fn(P + wname)
+            ctx.saw(g)
+            for b, i, adt, var, fl, ops, s_ in aggregates(g):
+                if s_["p"]["l"] != 0 or var != "Ok":
+                    continue
+                with g.deep():
+                    tup = g.sym_operand(s_["rv"]["ops"][0])
+                if not (tup[0] == "aggr" and len(tup) > 4 and len(tup[4]) == 3):
+                    continue
+                comps = tup[4]
+                nested = [x for x in (P + "expr", P + "primary", P + "unary", P + "term") if sym_contains(comps[0], lambda n, x=x: n[0] == "call" and n[1] == x)]
+                if not nested:
+                    continue
+                nfl += 1
+                okf = all(re.match(r"^branch\((expr|primary|unary|term)\(self\)\)@Continue\.0\.%d$" % k, render(comps[k])) for k in (1, 2))
+                ctx.check(okf, "IDENTITY", "C19:FLAGS:%s:passed-through" % wname, "%s hands the nested result's unit flags on unchanged" % wname,
+                          "%s rewrites the unit flags of its sub-expression (used = `%s`, bare = `%s`): a bare term inside a parenthesised group that also contains a unit construct is hidden from the mixed-unit check — `!degrees (deg(90) + 90)` is accepted" % (wname, render(comps[1])[:60], render(comps[2])[:60]),
+                          config, ctx.where(g, b))
+        ctx.floor("IDENTITY.flag-wrappers", nfl, 2, config)
         # ---- PAIR (mode): the sexagesimal interpretation switched for a unit call's argument is the caller's again afterwards:
         # every write of `self.sexagesimal_is_time` that follows the nested expression restores a value saved from the field
         # before it (a constant would be right only for non-nested calls).
